@@ -420,6 +420,8 @@ def run(ctx):
     fine_ladders(ctx)
     placement(ctx)
     zero_share(ctx)
+    from . import c07
+    c07.nodata_argument(ctx)        # spi(nodata=v) x state of the attribute: never raises, nodata cells echo v
 
 
 def replay(sub, case, p):
@@ -439,6 +441,9 @@ def replay(sub, case, p):
         fine_ladders(p)
     elif k == "zero_share":
         zero_share(p)
+    elif k == "nd_arg":
+        from . import c07
+        c07.nodata_argument(p)
     elif k == "marker":
         _marker_task((case["n"], case["window"][0], case["window"][1]), p)
     else:
